@@ -141,6 +141,7 @@ impl<'a> Normalize<'a> {
 // @item rust/core/src/lang/lang.rs :: const BUFFER_CAPACITY
 pub const BUFFER_CAPACITY: usize = 20;
 impl Lang {
+    pub open spec fn sp_class(&self, c: char) -> Option<CharClass> { if self.char_map@.contains_key(c) { Some(self.char_map@[c]) } else { None } }
     // C01 (padding loop): every reduction maps its pattern to at least as many characters (table lemma T1 per language)
     pub open spec fn wf(&self) -> bool {
         forall|k: Vec<char>| self.reduce_map@.contains_key(k) ==> (#[trigger] self.reduce_map@[k])@.len() >= k@.len()
@@ -164,6 +165,7 @@ impl Lang {
         self.pos_map.get(word).cloned()
     }
     pub fn get_char_class(&self, ch: char) -> (ret: Option<CharClass>)
+        ensures ret == self.sp_class(ch),
     {
         self.char_map.get(&ch).cloned()
     }
